@@ -43,7 +43,14 @@ pub fn gen_map(rng: &mut Rng, nseg: usize, big_zone_azimuth: bool) -> ClutterMap
                             }
                         };
                         (0..z)
-                            .map(|_| (rng.below(3) as u16, rng.u16()))
+                            .map(|_| {
+                                let end = match rng.below(8) {
+                                    0 => 511,
+                                    1 | 2 | 3 => rng.below(512) as u16,
+                                    _ => rng.u16(),
+                                };
+                                (rng.below(3) as u16, end)
+                            })
                             .collect()
                     })
                     .collect()
